@@ -124,6 +124,10 @@ func (r *RibEntry) updateNexthopsEnc() {
 					routes = append(routes, route)
 				}
 			}
+			// Inheritance stops at (and includes) the nearest ancestor holding a capture route
+			if entry != r && entry.HasCaptureRoute() {
+				break
+			}
 		}
 	}
 
